@@ -103,6 +103,97 @@ class RecordingDict:
         return self.local.get(k, d)
 
 
+class SimConn:
+    """Parent/child ends of a simulated one-way (or duplex) pipe.  A message sent by a simulated
+    worker at virtual time t is readable in the parent from t on (never, if the worker was terminated
+    before t)."""
+
+    def __init__(self, pipe, end):
+        self.pipe = pipe
+        self.end = end  # "recv" or "send"
+        self.closed = False
+
+    # -- parent side -------------------------------------------------------------------------
+    def _ready(self):
+        s = seams.SIM
+        out = []
+        for t, seq, obj, proc in sorted(self.pipe.msgs, key=lambda m: (m[0], m[1])):
+            if t > s.now:
+                continue
+            if proc is not None and proc.terminated_at is not None and t > proc.terminated_at:
+                continue
+            out.append((t, seq, obj, proc))
+        return out
+
+    def poll(self, timeout=0.0):
+        s = seams.SIM
+        r = self._ready()
+        if r:
+            return True
+        if timeout is None or (timeout and timeout > 0):
+            # wait (in virtual time) for the next message
+            future = sorted((m for m in self.pipe.msgs if m[0] > s.now and not (m[3] is not None and m[3].terminated_at is not None and m[0] > m[3].terminated_at)), key=lambda m: (m[0], m[1]))
+            if future and (timeout is None or future[0][0] <= s.now + timeout):
+                s.now = future[0][0]
+                return True
+            if timeout:
+                s.now += timeout
+        return False
+
+    def recv(self):
+        s = seams.SIM
+        r = self._ready()
+        if not r:
+            future = sorted((m for m in self.pipe.msgs if m[0] > s.now), key=lambda m: (m[0], m[1]))
+            usable = [m for m in future if not (m[3] is not None and m[3].terminated_at is not None and m[0] > m[3].terminated_at)]
+            if not usable:
+                raise EOFError
+            s.now = usable[0][0]
+            r = [usable[0]]
+        m = r[0]
+        self.pipe.msgs.remove(m)
+        s.trace("pipe.recv", repr(m[2])[:120])
+        return m[2]
+
+    def send(self, obj):
+        s = seams.SIM
+        if isinstance(self.pipe, _ChildPipe):
+            self.pipe.effects.append((s.now, ("pipe", self.pipe.pid_), obj))
+            return
+        self.pipe.seq += 1
+        self.pipe.msgs.append((s.now, self.pipe.seq, obj, None))
+
+    def close(self):
+        self.closed = True
+
+    def fileno(self):
+        return -1
+
+    def __enter__(self):
+        return self
+
+    def __exit__(self, *a):
+        self.close()
+
+
+class SimPipe:
+    def __init__(self, mpstate):
+        self.msgs = []
+        self.seq = 0
+        self.id = len(mpstate.pipes)
+        mpstate.pipes.append(self)
+        self.r = SimConn(self, "recv")
+        self.w = SimConn(self, "send")
+
+
+class _ChildPipe:
+    """What a simulated worker sees instead of a SimPipe: sends are recorded as effects."""
+
+    def __init__(self, pid_, effects):
+        self.pid_ = pid_
+        self.effects = effects
+
+
 class SimManager:
     def __init__(self, mpstate):
         self.mpstate = mpstate
@@ -152,6 +243,7 @@ class SimProcess:
         if self.started:
             raise AssertionError("cannot start a process twice")
         self.started = True
+        s.probe("mp_workers")
         st = self.mpstate
         self.index = len(st.processes)
         st.processes.append(self)
@@ -196,8 +288,14 @@ class SimProcess:
         self.status = payload["status"]
         self.effects = payload["effects"]
         self.exc = payload.get("exc")
+        dict_effects = [e for e in self.effects if not (isinstance(e[1], tuple) and len(e[1]) == 2 and e[1][0] == "pipe")]
         for d in self._dicts():
-            d.add_worker_effects(self, self.effects)
+            d.add_worker_effects(self, dict_effects)
+        for t, key, obj in self.effects:
+            if isinstance(key, tuple) and len(key) == 2 and key[0] == "pipe":
+                pipe = self.mpstate.pipes[key[1]]
+                pipe.seq += 1
+                pipe.msgs.append((t, pipe.seq, obj, self))
         # merge observation counts and statistics of the worker
         for k, v in payload["counts"].items():
             s.counts[k] = s.counts.get(k, 0) + v
@@ -225,7 +323,15 @@ class SimProcess:
         base_counts = dict(s.counts)
         s.counts = {}
         rec = RecordingDict()
-        args = tuple(rec if isinstance(a, SimDict) else a for a in self.args)
+
+        def subst(a):
+            if isinstance(a, SimDict):
+                return rec
+            if isinstance(a, SimConn):
+                return SimConn(_ChildPipe(a.pipe.id, rec.effects), a.end)
+            return a
+
+        args = tuple(subst(a) for a in self.args)
         status = 0
         exc = None
 
@@ -333,6 +439,7 @@ class MPState:
     def __init__(self, latencies=None):
         self.managers = []
         self.processes = []
+        self.pipes = []
         self.latencies = latencies or []
 
     def spawn_latency(self, j):
@@ -394,10 +501,19 @@ class SimMPModule:
             return real_mp.Process(group=group, target=target, name=name, args=args, kwargs=kwargs or {}, daemon=daemon)
         return SimProcess(self._st(), target, args, kwargs)
 
+    def Pipe(self, duplex=True):
+        s = seams.SIM
+        if s is None or not s.active:
+            return _REAL_PIPE(duplex)
+        s.probe("mp_pipe")
+        p = SimPipe(self._st())
+        return p.r, p.w
+
     def __getattr__(self, name):
         return getattr(real_mp, name)
 
 
+_REAL_PIPE = real_mp.Pipe
 SIMMP = SimMPModule()
 
 
@@ -449,10 +565,11 @@ def install():
 
     real_mp.get_context = get_context
     SIMMP.get_context = get_context
-    for name in ("Queue", "SimpleQueue", "JoinableQueue", "Pipe", "Pool", "Value", "Array"):
+    real_mp.Pipe = SIMMP.Pipe
+    for name in ("Queue", "SimpleQueue", "JoinableQueue", "Pool", "Value", "Array"):
         if hasattr(real_mp, name):
             setattr(real_mp, name, _NotModelled(name, getattr(real_mp, name)))
-    for name in ("Process", "Manager"):
+    for name in ("Process", "Manager", "Pipe", "get_context", "active_children"):
         if hasattr(ii, name):
             setattr(ii, name, getattr(real_mp, name))
 
@@ -465,3 +582,5 @@ def install():
 
     SIMMP._real_active_children = real_mp.active_children
     real_mp.active_children = active_children
+    if hasattr(ii, "active_children"):
+        ii.active_children = active_children
